@@ -205,6 +205,12 @@ def resetDefault (env : Env) : Nat → List Field → List Val → List Val
         -- other member goes back to its Go zero value (fix "ResetDefault resets every member")
         match f.ty with
         | .struct _ => v1
+        | .arr n (.struct s) =>
+          -- `st.X = [N]S{}` followed by `for i := range st.X { st.X[i].ResetDefault() }`
+          match env.find s with
+          | some ifs =>
+            Val.list (List.replicate n (Val.struct (resetDefault env fuel ifs (ifs.map fun g => zeroOf env g.ty))))
+          | none => zeroOf env f.ty
         | t => zeroOf env t
     v2 :: resetDefault env (fuel+1) fs vs
 termination_by fuel fs _ => (fuel, fs.length)
